@@ -12,6 +12,7 @@ import (
 	"regexp"
 	"strconv"
 	"strings"
+	"syscall"
 	"time"
 
 	"github.com/la5nta/wl2k-go/fbb"
@@ -115,6 +116,14 @@ func parseStrace(path string, under string) ([]sysCall, error) {
 			if strings.HasPrefix(a, under) || strings.HasPrefix(b, under) {
 				out = append(out, sysCall{Name: "rename", Path: a, Path2: b})
 			}
+		case "link", "linkat", "symlink", "symlinkat":
+			if len(qs) < 2 || ret != 0 {
+				continue
+			}
+			a, b := string(unhex(qs[0][1])), string(unhex(qs[1][1]))
+			if strings.HasPrefix(a, under) || strings.HasPrefix(b, under) {
+				out = append(out, sysCall{Name: map[bool]string{true: "link", false: "symlink"}[strings.HasPrefix(name, "link")], Path: a, Path2: b})
+			}
 		case "unlink", "unlinkat":
 			if len(qs) < 1 || ret != 0 {
 				continue
@@ -195,6 +204,10 @@ func applyCalls(calls []sysCall, n int, tear int, recRoot, dir string) error {
 			delete(open, c.FD)
 		case "rename":
 			return os.Rename(mapPath(c.Path), mapPath(c.Path2))
+		case "link": // a second name for the same file: what is written through one name later shows under the other
+			return os.Link(mapPath(c.Path), mapPath(c.Path2))
+		case "symlink":
+			return os.Symlink(c.Path, mapPath(c.Path2))
 		case "unlink":
 			return os.Remove(mapPath(c.Path))
 		case "mkdir":
@@ -213,7 +226,9 @@ func applyCalls(calls []sysCall, n int, tear int, recRoot, dir string) error {
 	return nil
 }
 
+// copyTree copies a directory tree; names that refer to the same file (hard links) do so in the copy too.
 func copyTree(src, dst string) error {
+	seen := map[uint64]string{}
 	return filepath.Walk(src, func(p string, info os.FileInfo, err error) error {
 		if err != nil {
 			return err
@@ -222,6 +237,12 @@ func copyTree(src, dst string) error {
 		t := filepath.Join(dst, rel)
 		if info.IsDir() {
 			return os.MkdirAll(t, 0755)
+		}
+		if st, ok := info.Sys().(*syscall.Stat_t); ok && st.Nlink > 1 {
+			if first, ok := seen[st.Ino]; ok {
+				return os.Link(first, t)
+			}
+			seen[st.Ino] = t
 		}
 		b, err := os.ReadFile(p)
 		if err != nil {
@@ -273,6 +294,24 @@ func childOp(op, mbox string, size int) int {
 		for _, m := range msgs {
 			if m.MID() == "OLDIN0000001" {
 				if err := mailbox.SetUnread(m, false); err != nil {
+					return 3
+				}
+			}
+		}
+	case "MarkUnreadLatest": // after a restart: the newest message (or the old one) is marked unread, a rewrite of its file
+		msgs, err := h.Inbox()
+		if err != nil {
+			return 3
+		}
+		target := "OLDIN0000001"
+		for _, m := range msgs {
+			if m.MID() == "NEWIN0000001" {
+				target = "NEWIN0000001"
+			}
+		}
+		for _, m := range msgs {
+			if m.MID() == target {
+				if err := mailbox.SetUnread(m, true); err != nil {
 					return 3
 				}
 			}
@@ -455,6 +494,102 @@ func recoverCheck(dir string, op string, size int, old map[string][]byte) (ev re
 	return
 }
 
+const tracedCalls = "trace=open,openat,write,pwrite64,close,fsync,fdatasync,rename,renameat,renameat2,unlink,unlinkat,mkdir,mkdirat,ftruncate,link,linkat,symlink,symlinkat"
+
+func straceCmd(trace, self, op, mbox string, size int) *exec.Cmd {
+	return exec.Command("strace", "-f", "-xx", "-s", "10000000", "-o", trace, "-e", tracedCalls,
+		self, "mboxfs-c11", "--child", op, "--mbox", mbox, "--size", fmt.Sprint(size))
+}
+
+// inboxPublic lists the inbox of dir: MID -> public bytes (nil map if the folder does not load).
+func inboxPublic(dir string) map[string][]byte {
+	h := mailbox.NewDirHandler(dir, false)
+	if err := h.Prepare(); err != nil {
+		return nil
+	}
+	msgs, err := h.Inbox()
+	if err != nil {
+		return nil
+	}
+	out := map[string][]byte{}
+	for _, m := range msgs {
+		out[m.MID()] = publicOf(m)
+	}
+	return out
+}
+
+// secondCrash: the process has crashed once (state dir1, whose folders load), is restarted, marks the message of the
+// interrupted operation unread - a rewrite of that file - and crashes again at any point of that.  What the inbox held
+// after the first crash is still there, complete, after the second.
+func secondCrash(tmp, self, dir1, op string, size, stride int, emit func(rec.Event)) (states int, err error) {
+	before := inboxPublic(dir1)
+	if before == nil {
+		return 0, nil
+	}
+	recDir, _ := os.MkdirTemp(tmp, "rec2")
+	defer os.RemoveAll(recDir)
+	copyTree(dir1, recDir)
+	trace := filepath.Join(tmp, "strace2.out")
+	if e := straceCmd(trace, self, "MarkUnreadLatest", recDir, size).Run(); e != nil {
+		if ee, ok := e.(*exec.ExitError); !ok || ee.ExitCode() != 3 {
+			return 0, fmt.Errorf("recording the second operation failed: %v", e)
+		}
+	}
+	calls, e := parseStrace(trace, recDir)
+	if e != nil {
+		return 0, e
+	}
+	check := func(n, tear int, what string) {
+		d, _ := os.MkdirTemp(tmp, "st2")
+		defer os.RemoveAll(d)
+		copyTree(dir1, d)
+		if err := applyCalls(calls, n, tear, recDir, d); err != nil {
+			return
+		}
+		ev := rec.Event{"op": "Recovery", "call": op + ", restart, SetUnread", "foldersLoad": false, "oldIntact": true, "outXorSent": true,
+			"rejectedImpliesComplete": true, "panic": false, "point": what, "size": size}
+		func() {
+			defer func() {
+				if p := recover(); p != nil {
+					ev["panic"], ev["panictext"] = true, fmt.Sprint(p)
+				}
+			}()
+			after := inboxPublic(d)
+			ev["foldersLoad"] = after != nil
+			for mid, want := range before {
+				if after != nil && !bytes.Equal(after[mid], want) {
+					ev["oldIntact"] = false
+					ev["damaged"] = "in/" + mid + ".b2f (complete after the first crash)"
+				}
+			}
+			h := mailbox.NewDirHandler(d, false)
+			if h.Prepare() == nil {
+				for _, mid := range []string{"NEWIN0000001", "OLDIN0000001"} {
+					if h.GetInboundAnswer(*fbb.NewProposal(mid, "t", fbb.Wl2kProposal, []byte("x"))) == fbb.Reject && (after == nil || after[mid] == nil) {
+						ev["rejectedImpliesComplete"] = false
+						ev["rejected"] = mid
+					}
+				}
+			}
+		}()
+		emit(ev)
+		states++
+	}
+	for n := 0; n <= len(calls); n++ {
+		check(n, -1, fmt.Sprintf("second crash before call %d/%d", n, len(calls)))
+		if n < len(calls) && calls[n].Name == "write" {
+			step := len(calls[n].Data)/6 + 1
+			if step < stride {
+				step = stride
+			}
+			for k := 0; k < len(calls[n].Data); k += step {
+				check(n, k, fmt.Sprintf("second crash, write %d torn after %d of %d bytes", n, k, len(calls[n].Data)))
+			}
+		}
+	}
+	return states, nil
+}
+
 // MainCrash is the "mboxfs-c11" subcommand.
 func MainCrash(args []string) int {
 	fl := flag.NewFlagSet("mboxfs-c11", flag.ExitOnError)
@@ -486,7 +621,7 @@ func MainCrash(args []string) int {
 		sizes = []int{40, 300, 3000}
 	}
 	protocols := map[string]string{}
-	nStates, nCalls := 0, 0
+	nStates, nCalls, n2 := 0, 0, 0
 	for _, size := range sizes {
 		for kind := 0; kind < 2; kind++ {
 			for _, op := range ops {
@@ -496,9 +631,7 @@ func MainCrash(args []string) int {
 				recDir, _ := os.MkdirTemp(*tmp, "rec")
 				copyTree(pre, recDir)
 				trace := filepath.Join(*tmp, "strace.out")
-				cmd := exec.Command("strace", "-f", "-xx", "-s", "10000000", "-o", trace, "-e",
-					"trace=open,openat,write,pwrite64,close,fsync,fdatasync,rename,renameat,renameat2,unlink,unlinkat,mkdir,mkdirat,ftruncate",
-					self, "mboxfs-c11", "--child", op, "--mbox", recDir, "--size", fmt.Sprint(size))
+				cmd := straceCmd(trace, self, op, recDir, size)
 				if err := cmd.Run(); err != nil {
 					// exit status 3: the operation itself reported an error (e.g. a name too long) - that is an outcome
 					if ee, ok := err.(*exec.ExitError); !ok || ee.ExitCode() != 3 {
@@ -507,7 +640,9 @@ func MainCrash(args []string) int {
 					}
 				}
 				calls, err := parseStrace(trace, recDir)
-				if err != nil || (len(calls) == 0 && op != "ProcessInboundLong") {
+				// (an operation that turns out to need no change of the file system has no crash points; the operations that
+				// must write keep the guard against a recording that silently failed)
+				if err != nil || (len(calls) == 0 && (op == "ProcessInbound" || op == "AddOut" || op == "SetSent" || op == "SetUnread")) {
 					fmt.Fprintf(os.Stderr, "no file system calls recorded for %s (%v)\n", op, err)
 					return 2
 				}
@@ -537,6 +672,18 @@ func MainCrash(args []string) int {
 						os.RemoveAll(d)
 						return
 					}
+					if tear < 0 && size == 300 && (op == "ProcessInbound" || op == "SetUnread" || op == "ReceiveAgain") {
+						// a second crash after the restart, while the message is rewritten
+						k, err := secondCrash(*tmp, self, d, op, size, *stride, func(ev rec.Event) {
+							ev["point"] = what + "; " + ev["point"].(string)
+							w.Write(map[string]interface{}{"call": op, "pre": kind}, []rec.Event{ev})
+						})
+						if err != nil {
+							fmt.Fprintln(os.Stderr, err)
+						}
+						nStates += k
+						n2 += k
+					}
 					ev := recoverCheck(d, op, size, old)
 					ev["point"] = what
 					ev["size"] = size
@@ -561,7 +708,7 @@ func MainCrash(args []string) int {
 	for k, v := range protocols {
 		pb = append(pb, fmt.Sprintf("%q:%q", k, v))
 	}
-	fmt.Printf("{\"traces\":%d,\"states\":%d,\"syscalls\":%d,\"protocols\":{%s}}\n", w.Count(), nStates, nCalls, strings.Join(pb, ","))
+	fmt.Printf("{\"traces\":%d,\"states\":%d,\"second_crash_states\":%d,\"syscalls\":%d,\"protocols\":{%s}}\n", w.Count(), nStates, n2, nCalls, strings.Join(pb, ","))
 	return 0
 }
 
